@@ -40,6 +40,7 @@ const (
 	cxMapSS // map[string]string as an association list
 	cxMapSC // map[string]*elem as an association list of gchild
 	cxOptC  // *elem result of a map lookup: option gchild
+	cxOptH  // *elem as an abstract handle (getElem): option H, nil = None
 )
 
 type cxl struct {
@@ -54,6 +55,7 @@ type cxl struct {
 	inLoop  bool
 	ret     cxT
 	named   []string // named results of the function (a bare return yields them)
+	loopRet bool     // inside a range loop whose body returns: the loop state is carried + result
 }
 
 func (x *cxl) src(n ast.Node) string {
@@ -115,6 +117,9 @@ func (x *cxl) expr(e ast.Expr, g *cxGuards) (string, cxT) {
 		case "true", "false":
 			return e.Name, cxBool
 		case "nil":
+			if x.ret == cxOptH {
+				return "None", cxOptH
+			}
 			return "false", cxErr
 		}
 		if t, ok := x.vars[e.Name]; ok {
@@ -280,6 +285,9 @@ func (x *cxl) call(e *ast.CallExpr, g *cxGuards) (string, cxT) {
 		}
 		return as, ts
 	}
+	if x.src(e.Fun) == "errors.New" && len(e.Args) == 1 {
+		return "true", cxErr
+	}
 	switch f := e.Fun.(type) {
 	case *ast.Ident:
 		switch f.Name {
@@ -361,6 +369,11 @@ func (x *cxl) call2(e ast.Expr, g *cxGuards) (string, cxT, bool) {
 		return "", 0, false
 	}
 	pkg, _ := f.X.(*ast.Ident)
+	if pkg != nil && x.vars[pkg.Name] == cxOptH && f.Sel.Name == "findChild" && len(c.Args) == 1 {
+		a, _ := x.expr(c.Args[0], g)
+		*g = append(*g, "(gs_is_some g_"+pkg.Name+")")
+		return "(gs_find g_findChild g_" + pkg.Name + " " + a + ")", cxOptH, true
+	}
 	if pkg == nil || pkg.Name != "strconv" {
 		return "", 0, false
 	}
@@ -381,6 +394,9 @@ func (x *cxl) call2(e ast.Expr, g *cxGuards) (string, cxT, bool) {
 }
 
 func (x *cxl) fall() string { // the value of a statement list that falls off its end
+	if x.inLoop && x.loopRet {
+		return "Some (inl " + x.tuple(x.carried) + ")"
+	}
 	if x.inLoop {
 		return "Some " + x.tuple(x.carried)
 	}
@@ -553,6 +569,13 @@ func (x *cxl) stmt(s ast.Stmt, rest func() string, d int) string {
 			return x.fall()
 		}
 	case *ast.ReturnStmt:
+		if x.inLoop && x.loopRet && len(s.Results) == 2 {
+			x.ret = cxOptH
+			a, _ := x.expr(s.Results[0], &g)
+			x.ret = cxUnknown
+			b, _ := x.expr(s.Results[1], &g)
+			return cxGuarded(g, "Some (inr ("+a+", "+b+"))")
+		}
 		if !x.inLoop && !x.effects && len(s.Results) == 1 {
 			t, _ := x.expr(s.Results[0], &g)
 			return cxGuarded(g, "Some "+t)
@@ -612,6 +635,20 @@ func (x *cxl) stmt(s ast.Stmt, rest func() string, d int) string {
 						cxInd(d)+"| None => None"+cxInd(d)+"| Some "+st+" =>"+cxInd(d+1)+rest()+cxInd(d)+"end")
 				}
 			}
+			if kok && vok && k.Name == "_" && ct == cxStrs && cxHasReturn(s.Body) {
+				car := x.assignedOuter(s.Body.List)
+				if len(car) > 0 {
+					saved := x.copyVars()
+					x.bind(v.Name, cxStr)
+					x.inLoop, x.loopRet, x.carried = true, true, car
+					body := x.block(s.Body.List, x.fall, d+2)
+					x.inLoop, x.loopRet, x.carried = false, false, nil
+					x.vars = saved
+					st := x.tuple(car)
+					return cxGuarded(g, "match fold_left (fun g_st g_"+v.Name+" => match g_st with None => None | Some (inr g_r) => Some (inr g_r) | Some (inl "+st+") =>"+cxInd(d+2)+body+cxInd(d+1)+"end) "+coll+" (Some (inl "+st+")) with"+
+						cxInd(d)+"| None => None"+cxInd(d)+"| Some (inr g_r) => Some g_r"+cxInd(d)+"| Some (inl "+st+") =>"+cxInd(d+1)+rest()+cxInd(d)+"end")
+				}
+			}
 			if kok && vok && k.Name == "_" && ct == cxStrs {
 				car := x.assignedOuter(s.Body.List)
 				if len(car) > 0 {
@@ -633,6 +670,17 @@ func (x *cxl) stmt(s ast.Stmt, rest func() string, d int) string {
 		}
 	}
 	return x.unsupported(s, "statement outside the subset")
+}
+
+func cxHasReturn(n ast.Node) bool {
+	found := false
+	ast.Inspect(n, func(m ast.Node) bool {
+		if _, ok := m.(*ast.ReturnStmt); ok {
+			found = true
+		}
+		return !found
+	})
+	return found
 }
 
 func (x *cxl) copyVars() map[string]cxT {
@@ -960,6 +1008,23 @@ func c17Xlate(root string) string {
 		}
 		report(x)
 		fmt.Fprintf(&out, "(* newElem *)\nDefinition tr_newElem (g_kind : Z) (g_name : gstr) : option gelem :=\n  %s.\n\n", body)
+	}
+	// elem.getElem: elements are abstract handles (option H, nil = None), findChild is a function parameter
+	{
+		x := newX()
+		body := "go_unsupported_getElem_not_found"
+		if fd := cxFindFunc(file, "elem", "getElem"); fd != nil && cxParams(x, fd) == "pathVec []string" && fd.Recv != nil && len(fd.Recv.List[0].Names) == 1 {
+			r := fd.Recv.List[0].Names[0].Name
+			x.vars[r], x.vars["pathVec"] = cxOptH, cxStrs
+			// the last statement returns (targetNode, nil)
+			x.ret = cxOptH
+			body = x.block(fd.Body.List, x.fall, 1)
+			if r != "e" {
+				body = "let g_" + r + " := g_e in " + body
+			}
+		}
+		report(x)
+		fmt.Fprintf(&out, "(* elem.getElem *)\nDefinition tr_getElem {H : Type} (g_findChild : H -> gstr -> option H * bool) (g_e : option H) (g_pathVec : list gstr) : option (option H * bool) :=\n  %s.\n\n", body)
 	}
 	// the listing getters of elem; e.getElem(pathVec) is an oracle (its two results are parameters)
 	for _, u := range []struct{ fn, typ string }{{"getDomain", "(list gstr * bool)"}, {"getDomainKey", "(list gstr * bool)"}, {"getDomainLine", "(list gstr * bool)"},
